@@ -315,6 +315,83 @@ def gen_inputs(rng, g, n_base=13, n_short=7):
     return out
 
 
+# ------------------------------------------------------------------ programs over two parser objects
+# op = ["build", w] | ["amb", w] | ["parse", w, i]     (w: 0 = smart_factorization False, 1 = True; i: index into inputs)
+N_AGAIN = 5       # inputs parsed a second time on every object
+
+
+def _life(rng, w, n, amb_p=0.5):
+    """one object's use: every input once, is_ambiguous() asked in between, then some inputs AGAIN (shuffled, one of
+    them twice in a row), is_ambiguous() at the end."""
+    ops = [["amb", w]]
+    order = list(range(n))
+    if rng.random() < 0.3:
+        rng.shuffle(order)
+    for i in order:
+        ops.append(["parse", w, i])
+        if rng.random() < amb_p:
+            ops.append(["amb", w])
+    again = rng.sample(range(n), min(n, N_AGAIN)) if n else []
+    if again:
+        again.insert(rng.randrange(len(again)), again[rng.randrange(len(again))])
+        j = rng.randrange(len(again))
+        again.insert(j, again[j])          # the same text twice in a row
+    for k, i in enumerate(again):
+        ops.append(["parse", w, i])
+        if rng.random() < amb_p or k == len(again) - 1:
+            ops.append(["amb", w])
+    if not again:
+        ops.append(["amb", w])
+    return ops
+
+
+def _interleave(rng, a, b):
+    a, b = list(a), list(b)
+    out = []
+    while a or b:
+        src = a if (a and (not b or rng.random() < 0.5)) else b
+        out.append(src.pop(0))
+    return out
+
+
+def make_prog(rng, n):
+    """a program: both objects are built from the one productions dict, in random order, one after the other's life
+    ('seq'), both first ('interleave'), the second in the middle of the first one's life ('late'), or the first one
+    re-built after everything else ('rebuild'); every object is asked is_ambiguous() right after construction, between
+    parses and at the end, and parses every input once and some again."""
+    a = rng.randint(0, 1)
+    b = 1 - a
+    mode = rng.choice(["seq", "interleave", "late", "rebuild"])
+    la, lb = _life(rng, a, n), _life(rng, b, n)
+    tail = [["amb", a]]
+    if n:
+        tail += [["parse", a, rng.randrange(n)], ["amb", a]]
+    if mode == "seq":
+        ops = [["build", a]] + la + [["build", b]] + lb + tail
+    elif mode == "interleave":
+        ops = [["build", a], ["build", b]] + _interleave(rng, la, lb) + tail + [["amb", b]]
+    elif mode == "late":
+        k = rng.randint(1, max(1, len(la) - 1))
+        ops = [["build", a]] + la[:k] + [["build", b]] + _interleave(rng, la[k:], lb) + tail + [["amb", b]]
+    else:
+        ops = [["build", a]] + la + [["build", b]] + lb + [["amb", a], ["build", a], ["amb", a]]
+        if n:
+            for i in rng.sample(range(n), min(n, 3)):
+                ops += [["parse", a, i], ["amb", a]]
+        ops += [["amb", b]]
+        if n:
+            ops += [["parse", b, rng.randrange(n)], ["amb", b]]
+    return ops
+
+
+def _prog(case):
+    """the program of a case (cases written before programs existed get a fixed pseudo-random one)"""
+    if case.get("prog") is not None:
+        return case["prog"]
+    import random
+    return make_prog(random.Random(20261001 + len(case["inputs"])), len(case["inputs"]))
+
+
 def gen_cases(rng, tier):
     thorough = tier == "thorough"
     n_ll1, n_family, n_general = (2400, 400, 700) if thorough else (300, 60, 100)
@@ -322,7 +399,8 @@ def gen_cases(rng, tier):
     cases = []
 
     def add(g, src, diag):
-        cases.append({"g": g, "inputs": gen_inputs(rng, g), "diag": diag, "src": src})
+        inputs = gen_inputs(rng, g)
+        cases.append({"g": g, "inputs": inputs, "diag": diag, "src": src, "prog": make_prog(rng, len(inputs))})
     got = 0
     tries = 0
     while got < n_ll1 and tries < n_ll1 * 60:
@@ -360,47 +438,86 @@ def kind(case):
 
 # ------------------------------------------------------------------ implementation side
 def _diag_obs(p):
+    """internal sets and the table of a parser object AS IT IS NOW (every cell, also an empty one)"""
     summ = p._summary
     nulls = sorted(summ.nullables)
     first = [[k, sorted(v)] for k, v in sorted(summ.first_sest.items())]
     follow = [[k, sorted(v)] for k, v in sorted(summ.follow_sets.items())]
-    table = [[nt, tok, [r.sort_n for r in rs]] for (nt, tok), rs in sorted(p.parse_table.items()) if rs]
+    table = [[nt, tok, [r.sort_n for r in rs]] for (nt, tok), rs in sorted(p.parse_table.items())]
     return [nulls, first, follow, table]
 
 
-def _run_one(case, smart):
-    from ak import llparser
-    g = case["g"]
-    prods = {nt: [tuple(a) if a else None for a in alts] for nt, alts in g["prods"]}
-    try:
-        p = llparser.LLParser(L.tokenizer_str(g["terms"]), productions=prods,
-                              start_symbol_name=g["start"], smart_factorization=smart)
-    except BaseException as e:  # noqa
-        if type(e).__name__ == "Hang":
-            raise
-        return {"ctor": ["err", SX.exc_name(e)]}
-    out = {"ctor": ["ok"], "amb": bool(p.is_ambiguous()), "res": []}
-    if case.get("diag"):
-        out["diag"] = _diag_obs(p)
-    for inp in case["inputs"]:
-        text = " ".join(v for _, v in inp)
-        try:
-            t = p.parse(text, do_cleanup=False)
-            out["res"].append(["ok", L.tree_obs(t)])
-        except llparser.Error as e:
-            out["res"].append(["err", SX.exc_name(e)])
-        except BaseException as e:  # noqa
-            if type(e).__name__ == "Hang":
-                raise
-            out["res"].append(["err", SX.exc_name(e)])
-    return out
+def _clobber(t):
+    """what a caller may do with a tree it was given: take it apart.  A later parse must not be affected."""
+    todo = [t]
+    while todo:
+        x = todo.pop()
+        v = x.value
+        if isinstance(v, list):
+            todo.extend(v)
+            v.clear()
+        x.value = None
+        x.name = "#clobbered"
 
 
 def impl_run(case):
-    return {"runs": [_run_one(case, False), _run_one(case, True)]}
+    """runs the case's program: all constructor calls get THE SAME productions dict; the objects live as long as the
+    program says; every returned tree is observed and then taken apart."""
+    from ak import llparser
+    g = case["g"]
+    prods = {nt: [tuple(a) if a else None for a in alts] for nt, alts in g["prods"]}
+    tok = L.tokenizer_str(g["terms"])
+    texts = [" ".join(v for _, v in inp) for inp in case["inputs"]]
+    objs = {0: None, 1: None}
+    out = []
+    for op in _prog(case):
+        w = op[1]
+        if op[0] == "build":
+            objs[w] = None
+            try:
+                objs[w] = llparser.LLParser(tok, productions=prods, start_symbol_name=g["start"],
+                                            smart_factorization=bool(w))
+                out.append(["built"])
+            except BaseException as e:  # noqa
+                if type(e).__name__ == "Hang":
+                    raise
+                out.append(["built", SX.exc_name(e)])
+            continue
+        p = objs[w]
+        if p is None or (op[0] == "parse" and not 0 <= op[2] < len(texts)):
+            out.append(["none"])
+        elif op[0] == "amb":
+            try:
+                out.append(["amb", bool(p.is_ambiguous())])
+            except BaseException as e:  # noqa
+                if type(e).__name__ == "Hang":
+                    raise
+                out.append(["amb", SX.exc_name(e)])
+        else:
+            try:
+                t = p.parse(texts[op[2]], do_cleanup=False)
+                out.append(["parse", "ok", L.tree_obs(t)])
+                _clobber(t)
+            except BaseException as e:  # noqa
+                if type(e).__name__ == "Hang":
+                    raise
+                out.append(["parse", "err", SX.exc_name(e)])
+    obs = {"ops": out}
+    if case.get("diag"):
+        obs["diag"] = [_diag_obs(objs[w]) if objs[w] is not None else None for w in (0, 1)]
+    return obs
 
 
 # ------------------------------------------------------------------ model side
+def coq_op(op):
+    w = SX.cbool(bool(op[1]))
+    if op[0] == "build":
+        return f"OBuild {w}"
+    if op[0] == "amb":
+        return f"OAmb {w}"
+    return f"OParse {w} {int(op[2])}%nat"
+
+
 def coq_case(case, obs):
     g = case["g"]
     cs = L.coq_sym
@@ -411,10 +528,14 @@ def coq_case(case, obs):
     inputs = SX.clist(
         (SX.clist("(" + cs(n) + ", " + SX.cstr(v) + ")" for n, v in inp) if inp else "(@nil (list Z * list Z))")
         for inp in case["inputs"]) if case["inputs"] else "(@nil (list (list Z * list Z)))"
-    return f"Grammar2 {ug} {terms} {cs(g['start'])} {FUEL}%nat {inputs} {SX.cbool(bool(case.get('diag')))}"
+    prog = _prog(case)
+    ops = SX.clist(coq_op(o) for o in prog) if prog else "(@nil op)"
+    return f"Session2 {ug} {terms} {cs(g['start'])} {FUEL}%nat {inputs} {ops} {SX.cbool(bool(case.get('diag')))}"
 
 
 def _diag_sx(d):
+    if d is None:
+        return []
     nulls, first, follow, table = d
     return [[SX.s(x) for x in nulls],
             [[SX.s(k), [SX.s(x) for x in v]] for k, v in first],
@@ -422,18 +543,63 @@ def _diag_sx(d):
             [[SX.s(nt), SX.s(tok), list(ns)] for nt, tok, ns in table]]
 
 
+def _ctor_outcomes(case, obs):
+    """per smart value: None (never constructed in this program) | 'ok' | exception class, of the FIRST constructor call"""
+    res = {0: None, 1: None}
+    for op, o in zip(_prog(case), obs["ops"]):
+        if op[0] == "build" and res[op[1]] is None:
+            res[op[1]] = "ok" if len(o) == 1 else o[1]
+    return res
+
+
 def expected_sx(case, obs):
-    out = []
-    for r in obs["runs"]:
-        if r["ctor"][0] == "err":
-            out.append(SX.err(r["ctor"][1]))
-            continue
-        res = [SX.ok(L.tree_sx(x[1])) if x[0] == "ok" else SX.err(x[1]) for x in r["res"]]
-        out.append([0, r["amb"], True, True, res, _diag_sx(r["diag"]) if case.get("diag") else []])
-    return SX.dumps(out)
+    ops = []
+    for o in obs["ops"]:
+        if o[0] == "built":
+            ops.append([0] if len(o) == 1 else SX.err(o[1]))
+        elif o[0] == "amb":
+            ops.append([2, o[1]] if isinstance(o[1], bool) else [2, SX.err(o[1])])
+        elif o[0] == "parse":
+            ops.append([3, SX.ok(L.tree_sx(o[2])) if o[1] == "ok" else SX.err(o[2])])
+        else:
+            ops.append([4])
+    ctor = _ctor_outcomes(case, obs)
+    vals = []
+    for w in (0, 1):
+        # the validators wf_grammar / hyps_ok must be true on everything the constructor model accepts; a smart value
+        # the program never constructs is taken from the model as it is (then the line is not compared: see in_model)
+        if ctor[w] in (None, "ok"):
+            vals.append([0, True, True])
+        else:
+            vals.append(SX.err(ctor[w]))
+    diag = [_diag_sx(d) for d in obs["diag"]] if case.get("diag") else []
+    return SX.dumps([ops, vals, diag])
+
+
+def in_model(case, obs):
+    # programs construct both objects (the generator's do); a hand-written program that leaves one out cannot be
+    # compared on the validators of the missing one
+    if "__hang__" in obs:
+        return False
+    built = {op[1] for op in _prog(case) if op[0] == "build"}
+    return built == {0, 1}
 
 
 # ------------------------------------------------------------------ oracle: the property statement itself
+def _lives(case, obs):
+    """the program's observations per OBJECT: [(w, [(op, obs)] in program order)], a new object at every build"""
+    cur = {}
+    lives = []
+    for op, o in zip(_prog(case), obs["ops"]):
+        w = op[1]
+        if op[0] == "build":
+            cur[w] = []
+            lives.append((w, cur[w]))
+        if w in cur:
+            cur[w].append((op, o))
+    return lives
+
+
 def oracle(case, obs):
     if "__hang__" in obs:
         return [("hang", "constructor or parse did not return for a grammar that is not left recursive: "
@@ -446,41 +612,93 @@ def oracle(case, obs):
     ll1 = L.ref_is_ll1(prods, start)
     out = []
     desc = f"grammar {g['prods']} start {start}"
-    members = None
-    for smart, r in zip((False, True), obs["runs"]):
-        tag = f"smart_factorization={smart}"
-        if r["ctor"][0] != "ok":
-            out.append(("ctor-error", f"{desc} {tag}: constructor raised {r['ctor'][1]} for a grammar without left recursion"))
+    members = {}
+    trees = {}
+
+    def member(i):
+        if i not in members:
+            members[i] = L.earley_recognize(prods, start, [t for t, _ in case["inputs"][i]])
+        return members[i]
+
+    def the_trees(i):
+        if i not in trees:
+            trees[i] = ref_trees(prods, start, case["inputs"][i], limit=2)
+        return trees[i]
+
+    per_setting = {0: {}, 1: {}}       # smart value -> input index -> set of results over all objects and moments
+    amb_setting = {0: set(), 1: set()}
+    for w, life in _lives(case, obs):
+        tag = f"smart_factorization={bool(w)}"
+        if len(life[0][1]) != 1:
+            out.append(("ctor-error", f"{desc} {tag}: constructor raised {life[0][1][1]} for a grammar without left recursion"))
             continue
-        if ll1 and r["amb"]:
-            out.append(("ll1-reported-ambiguous", f"{desc} {tag}: predict sets are pairwise disjoint (independent computation) "
-                        "but is_ambiguous() is True"))
-        if r["amb"] and not ll1:
-            continue     # the property says nothing
-        # the language must be exact (for ll1 grammars even if a conflict was reported)
-        if members is None:
-            members = [L.earley_recognize(prods, start, [t for t, _ in inp]) for inp in case["inputs"]]
-        for inp, mem, x in zip(case["inputs"], members, r["res"]):
+        answers = []      # is_ambiguous() answers of this object, in order
+        reported_free = any(q[0] == "amb" and r[1] is False for q, r in life[1:])
+        n_parsed = 0
+        for op, o in life[1:]:
+            if op[0] == "amb":
+                when = f"after {n_parsed} parse() calls on the object"
+                if not isinstance(o[1], bool):
+                    out.append(("is-ambiguous-raised", f"{desc} {tag}: is_ambiguous() raised {o[1]} {when}"))
+                    continue
+                if ll1 and o[1]:
+                    out.append(("ll1-reported-ambiguous", f"{desc} {tag}: predict sets are pairwise disjoint (independent "
+                                f"computation) but is_ambiguous() is True {when}"))
+                if answers and answers[-1] != o[1]:
+                    out.append(("is-ambiguous-changed", f"{desc} {tag}: is_ambiguous() was {answers[-1]} and is {o[1]} {when}; "
+                                "the grammar of a parser object does not change"))
+                answers.append(o[1])
+                amb_setting[w].add(o[1])
+                continue
+            if o[0] != "parse":
+                continue
+            n_parsed += 1
+            i = op[2]
+            inp = case["inputs"][i]
+            toks = [t for t, _ in inp]
+            x = o[1:]
+            key = repr(x)
+            per_setting[w].setdefault(i, [])
+            if key not in [k for k, _ in per_setting[w][i]]:
+                per_setting[w][i].append((key, x))
+            # the property's clause: whenever is_ambiguous() is False (asked at any moment of this object's life;
+            # for an LL(1) grammar in any case) the language is exact
+            if not ll1 and not reported_free:
+                continue
+            mem = member(i)
             if mem and x[0] != "ok":
-                out.append(("sentence-rejected", f"{desc} {tag}: sentence {[t for t, _ in inp]} raised {x[1]}"))
+                out.append(("sentence-rejected", f"{desc} {tag}: sentence {toks} raised {x[1]} (parse() call number {n_parsed} on the object)"))
             elif not mem and x[0] == "ok":
-                out.append(("nonsentence-accepted", f"{desc} {tag}: non-sentence {[t for t, _ in inp]} was accepted"))
+                out.append(("nonsentence-accepted", f"{desc} {tag}: non-sentence {toks} was accepted (parse() call number {n_parsed} on the object)"))
             elif not mem and x[1] != "ParsingError":
-                out.append(("nonsentence-other-error", f"{desc} {tag}: non-sentence {[t for t, _ in inp]} raised {x[1]}, not ParsingError"))
+                out.append(("nonsentence-other-error", f"{desc} {tag}: non-sentence {toks} raised {x[1]}, not ParsingError"))
             elif mem:
-                trees = ref_trees(prods, start, inp, limit=2)
-                if len(trees) != 1:
-                    if not r["amb"]:
-                        out.append(("conflict-free-but-ambiguous", f"{desc} {tag}: is_ambiguous() is False but {[t for t, _ in inp]} "
-                                    f"has {len(trees)}+ derivations"))
-                elif trees[0] != x[1]:
-                    out.append(("wrong-tree", f"{desc} {tag}: {[t for t, _ in inp]} parsed to {x[1]}, the unique derivation is {trees[0]}"))
+                tr = the_trees(i)
+                if len(tr) != 1:
+                    if reported_free:
+                        out.append(("conflict-free-but-ambiguous", f"{desc} {tag}: is_ambiguous() is False but {toks} "
+                                    f"has {len(tr)}+ derivations"))
+                elif tr[0] != x[1]:
+                    out.append(("wrong-tree", f"{desc} {tag}: {toks} parsed to {x[1]}, the unique derivation is {tr[0]} "
+                                f"(parse() call number {n_parsed} on the object)"))
+    # a parser's answer depends on the grammar and the text, not on what the object (or another object built from the
+    # same productions dict) did before
+    for w in (0, 1):
+        tag = f"smart_factorization={bool(w)}"
+        if len(amb_setting[w]) > 1:
+            out.append(("is-ambiguous-changed", f"{desc} {tag}: is_ambiguous() answered both True and False for the same "
+                        "productions dict (different moments / objects)"))
+        for i, results in per_setting[w].items():
+            if len(results) > 1:
+                out.append(("parse-history-dependent", f"{desc} {tag}: {[t for t, _ in case['inputs'][i]]} gave "
+                            f"{results[0][1]} at one moment and {results[1][1]} at another"))
+                break
     # both settings conflict-free => identical verdicts (follows from the above; reported separately for readability)
-    ra, rb = obs["runs"]
-    if ra["ctor"][0] == "ok" and rb["ctor"][0] == "ok" and not ra["amb"] and not rb["amb"]:
-        for inp, xa, xb in zip(case["inputs"], ra["res"], rb["res"]):
+    if amb_setting[0] == {False} and amb_setting[1] == {False}:
+        for i in sorted(set(per_setting[0]) & set(per_setting[1])):
+            xa, xb = per_setting[0][i][0][1], per_setting[1][i][0][1]
             if xa != xb:
-                out.append(("smart-differs", f"{desc}: {[t for t, _ in inp]} gives {xa} without and {xb} with smart_factorization"))
+                out.append(("smart-differs", f"{desc}: {[t for t, _ in case['inputs'][i]]} gives {xa} without and {xb} with smart_factorization"))
                 break
     # first failure per signature
     seen, res = set(), []
@@ -491,45 +709,88 @@ def oracle(case, obs):
     return res
 
 
+def _first_answers(case, obs):
+    """per smart value: None (not constructed) | exception class | (first is_ambiguous() answer, [parse results])"""
+    res = {}
+    for w, life in _lives(case, obs):
+        if w in res:
+            continue
+        if len(life[0][1]) != 1:
+            res[w] = life[0][1][1]
+            continue
+        ambs = [o[1] for op, o in life[1:] if op[0] == "amb"]
+        parses = [o for op, o in life[1:] if o[0] == "parse"]
+        res[w] = (ambs[0] if ambs else None, parses)
+    return res
+
+
 def nontrivial(case, obs):
     if "__hang__" in obs:
         return False
-    runs = obs["runs"]
-    if any(r["ctor"][0] != "ok" for r in runs):
+    fa = _first_answers(case, obs)
+    if len(fa) < 2 or any(not isinstance(v, tuple) for v in fa.values()):
         return False
-    if all(r["amb"] for r in runs):
+    free = [v for v in fa.values() if v[0] is False]
+    if not free:
         return False
     if not L.ref_nullable(_plain(case["g"])):
         return False
-    r = [x for x in runs if not x["amb"]][0]
-    return any(x[0] == "ok" for x in r["res"]) and any(x[0] != "ok" for x in r["res"])
+    r = free[0][1]
+    return any(x[1] == "ok" for x in r) and any(x[1] != "ok" for x in r)
 
 
 def outcome(case, obs):
     if "__hang__" in obs:
         return "hang"
+    fa = _first_answers(case, obs)
     parts = []
-    for r in obs["runs"]:
-        if r["ctor"][0] != "ok":
-            parts.append("ctor:" + r["ctor"][1])
+    for w in (0, 1):
+        v = fa.get(w)
+        if v is None:
+            parts.append("not-built")
+        elif not isinstance(v, tuple):
+            parts.append("ctor:" + v)
         else:
-            n_ok = sum(1 for x in r["res"] if x[0] == "ok")
-            parts.append(f"amb={int(r['amb'])} parsed={'some' if n_ok else 'none'}")
+            n_ok = sum(1 for x in v[1] if x[1] == "ok")
+            parts.append(f"amb={int(bool(v[0]))} parsed={'some' if n_ok else 'none'}")
     return " | ".join(parts)
+
+
+def _restrict(case, keep):
+    """the case with only the inputs `keep` (indices), the program's parse ops re-numbered / dropped accordingly"""
+    idx = {i: k for k, i in enumerate(keep)}
+    prog = []
+    for op in _prog(case):
+        if op[0] == "parse":
+            if op[2] in idx:
+                prog.append(["parse", op[1], idx[op[2]]])
+        else:
+            prog.append(list(op))
+    return dict(case, inputs=[case["inputs"][i] for i in keep], prog=prog)
 
 
 def shrink_candidates(case):
     g = case["g"]
-    if len(case["inputs"]) > 1:
-        for i in range(len(case["inputs"])):
-            yield dict(case, inputs=[case["inputs"][i]])
+    n = len(case["inputs"])
+    prog = _prog(case)
+    if n > 1:
+        for i in range(n):
+            yield _restrict(case, [i])
+        for i in range(n):
+            for j in range(n):
+                if i != j:
+                    yield _restrict(case, [i, j])
+    # drop one operation (never a constructor call)
+    for k, op in enumerate(prog):
+        if op[0] != "build":
+            yield dict(case, prog=prog[:k] + prog[k + 1:])
     for i, (nt, alts) in enumerate(g["prods"]):
         if len(alts) > 1:
             for j in range(len(alts)):
                 g2 = dict(g)
                 g2["prods"] = [list(x) for x in g["prods"]]
                 g2["prods"][i] = [nt, alts[:j] + alts[j + 1:]]
-                yield dict(case, g=g2)
+                yield dict(case, g=g2, prog=prog)
 
 
 TECHNIQUE = ("Coq proof (fixpoint iterations shown sound by invariant and complete by 'closed + enough fuel'; table by "
